@@ -1895,6 +1895,13 @@ def rule_query(repo):
 # per elaboration and cached per defining class (decided by C02's cache-scope rule)
 from rules.c02 import rule_cache_scope      # noqa: E402
 
+def rule_sibling_links(repo):
+    """get_sibling_slices() is part of a slice's hierarchy metadata: the siblings are the other slices of the signal the slice
+    belongs to (its parent object).  Shared with C02 (R-overlap)."""
+    from rules.c02 import rule_overlap
+    return rule_overlap(repo)
+
+
 def rule_registry_after_replace(repo):
     """after replace_component the registry of named objects holds exactly the live objects: everything the removed
     subtree contributed (signals AND method ports / interfaces) is taken out, otherwise stale '<deleted>' objects share names
@@ -1904,7 +1911,7 @@ def rule_registry_after_replace(repo):
 
 
 RULES = [rule_name_storage, rule_cache, rule_meta, rule_reassign, rule_siblings, rule_api, rule_collect, rule_query,
-         rule_cache_scope, rule_registry_after_replace]
+         rule_cache_scope, rule_registry_after_replace, rule_sibling_links]
 
 # ---------------------------------------------------------------------------
 # self-test of the checker (thorough tier)
